@@ -5,7 +5,7 @@ import copy
 import networkx as nx
 import dynetx as dn
 
-from .core import (Model, histories, run_history, new_graph, apply_call, state_key, Collector, NODES, T_LO, T_HI)
+from .core import (Model, histories, run_history, new_graph, apply_call, state_key, Collector, NODES, T_LO, T_HI, qs_of)
 
 QS = list(range(T_LO - 2, T_HI + 4))
 
@@ -65,7 +65,7 @@ def c01_presence(tier, seed):
             continue
         for k in M.keys():
             for (a, b) in ([k] if M.directed else [k, k[::-1]]):
-                for q in QS:
+                for q in qs_of(M):
                     got = G.has_interaction(a, b, q)
                     if bool(got) != M.present(a, b, q):
                         col.violation('C01.presence_is_union_of_spans', cls, removal, h,
@@ -75,7 +75,7 @@ def c01_presence(tier, seed):
         for a in NODES + (9,):
             for b in NODES + (9,):
                 if not M.ever(a, b):
-                    if G.has_interaction(a, b) or any(G.has_interaction(a, b, q) for q in QS):
+                    if G.has_interaction(a, b) or any(G.has_interaction(a, b, q) for q in qs_of(M)):
                         col.violation('C01.other_pairs_unaffected', cls, removal, h, 'pair (%r,%r) never added but reported present' % (a, b))
         if col.full():
             break
@@ -149,7 +149,7 @@ def check_snapshots(G, M, col, cls, removal, h, prefix='C04'):
     if ids != exp:
         col.violation(prefix + '.snapshot_ids', cls, removal, h, 'temporal_snapshots_ids() = %r, inhabited instants %r' % (ids, exp))
     alld = G.interactions_per_snapshots()
-    for q in QS:
+    for q in qs_of(M):
         n = len(M.edges_at(q))
         got = G.interactions_per_snapshots(q)
         if got != n:
@@ -368,7 +368,7 @@ def c08_accumulative(tier, seed):
             continue
         for k in M.keys():
             for (a, b) in ([k] if M.directed else [k, k[::-1]]):
-                for q in QS:
+                for q in qs_of(M):
                     if bool(G.has_interaction(a, b, q)) != bool(M.present(a, b, q)):
                         col.violation('C08.presence_from_first_add_to_last_snapshot', cls, removal, h,
                                       'has_interaction(%r,%r,%r) = %r, expected %r (first add %r, snapshots %r)' % (a, b, q, G.has_interaction(a, b, q), bool(M.present(a, b, q)), M.first[k], sorted(M.snaps)))
@@ -386,7 +386,7 @@ def c08_accumulative(tier, seed):
         if set(plus) - set(M.keys()):
             col.violation('C08.one_plus_per_pair', cls, removal, h, 'events of pairs never added: %r' % (set(plus) - set(M.keys())))
         from .parts_queries import compare_queries
-        for q in QS[1:-1:2] + [None]:
+        for q in qs_of(M)[1:-1:2] + [None]:
             compare_queries(G, M, q, col, cls, removal, h, prefix='C08.queries', light=True)
         if col.full():
             break
